@@ -429,14 +429,14 @@ def configs(tier, seed):
         for space in ("fin6", "fin4", "degen", "fin9", "finlog"):
             size = ref.space_size(ref.SPACES[space])
             for p in names(space, *ALLP):
-                for sd in (0, 1) if q else (0, 1, 2, 3):
+                for sd in (0, 1) if q else ((0, 1) if kind.endswith("bo-rand") else (0, 1, 2)):
                     if size > 6:
                         if sd > (0 if q else 1) or (q and costly and p not in ("none", "partial")):
                             continue
                         out.append(_mk(kind, space, p, seed=sd, W=1, F=0 if kind.startswith("hb") else 1, tv=sd % 2,
                                        max_states=cap))
-                        if not q and not costly:
-                            out.append(_mk(kind, space, p, seed=sd, W=2, F=0, tv=sd % 2, max_states=8000))
+                        if not q and not costly and sd == 0:
+                            out.append(_mk(kind, space, p, seed=sd, W=2, F=0, tv=sd % 2, max_states=3000))
                         continue
                     if q:
                         if sd == 1 and p not in ("partial", "dups", "full"):
@@ -444,7 +444,8 @@ def configs(tier, seed):
                         wide = sd == 0 and p in ("partial", "dups") and not (costly and kind.endswith("bo-rand"))
                         out.append(_mk(kind, space, p, seed=sd, W=2 if wide else 1, F=1, tv=sd % 2, max_states=cap))
                     else:
-                        out.append(_mk(kind, space, p, seed=sd, W=2, F=1, tv=sd % 2, max_states=cap))
+                        out.append(_mk(kind, space, p, seed=sd, W=2, F=1, tv=sd % 2,
+                                       max_states=4000 if kind.endswith("bo-rand") else cap))
                         if sd == 0:
                             out.append(_mk(kind, space, p, seed=sd, W=1, F=2, tv=1, max_states=cap))
     # training script ends before max_t: trials complete after a CONTINUE decision (on_trial_complete path)
@@ -462,47 +463,49 @@ def configs(tier, seed):
         for sd in (0,) if q else (0, 1, 2):
             out.append(_mk("fifo-grid", "gridf", p, seed=sd, W=1, F=1, T=22, max_states=cap))
             if not q:
-                out.append(_mk("fifo-grid-noshuffle", "gridf", p, seed=sd, W=2, F=0, T=22, max_states=8000))
+                out.append(_mk("fifo-grid-noshuffle", "gridf", p, seed=sd, W=2, F=0, T=22, max_states=3000))
     # ---- B. infinite / mixed / quantised spaces: validity, typing, initial points; depth bound
     for kind in ("fifo-random", "fifo-bo-rand", "hb-stop-random", "hb-prom-random", "hb-stop-bo-rand", "pbt", "dehb",
                  "dehb-nopr"):
         fam = KINDS[kind]["fam"]
         for space in ("inf", "mix", "quant"):
             for p in names(space, *ALLP):
-                for sd in (0, 1) if q else (0, 1, 2, 3):
+                for sd in (0, 1):
                     if q and sd > 0 and p != "partial":
                         continue
                     if q and kind == "hb-stop-bo-rand" and p not in ("none", "partial"):
                         continue
-                    D = (9 if q else 12) if fam == "fifo" else (10 if q else 13)
+                    D = (9 if q else 11) if fam == "fifo" else (10 if q else 12)
                     out.append(_mk(kind, space, p, seed=sd, W=2, F=1, T=5 if q else 6, D=D, tv=sd % 2,
-                                   max_states=1500 if q else 20000))
+                                   max_states=1500 if q else 2500))
     # ---- C. PBT and DEHB on finite spaces
     for kind in ("pbt", "dehb", "dehb-nopr"):
         for space in ("fin6", "fin4", "fin9", "degen", "finlog"):
             size = ref.space_size(ref.SPACES[space])
             for p in names(space, *ALLP):
-                for sd in (0, 1) if q else (0, 1, 2, 3):
+                for sd in (0, 1):
                     if q and sd > 0 and p != "partial":
                         continue
-                    out.append(_mk(kind, space, p, seed=sd, W=2, F=1, T=min(size + 2, 7), D=12 if q else 16,
-                                   tv=sd % 2, max_states=1500 if q else 20000))
+                    out.append(_mk(kind, space, p, seed=sd, W=2, F=1, T=min(size + 2, 7), D=12 if q else 14,
+                                   tv=sd % 2, max_states=1500 if q else 3000))
     # ---- D. GP searchers with the real BO path (model fit + acquisition optimisation), small depth
-    gp_spaces = ("fin6", "inf") if q else ("fin6", "fin9", "fin4", "inf", "mix", "degen", "finlog")
+    gp_spaces = ("fin6", "inf") if q else ("fin6", "fin9", "inf", "mix", "degen")
     for kind in ("fifo-bo", "hb-stop-bo", "hb-prom-bo", "hb-stop-hypertune", "hb-prom-hypertune"):
         fam = KINDS[kind]["fam"]
         for space in gp_spaces:
-            for p in names(space, "none", "partial") if q else names(space, "none", "empty", "partial", "dups"):
+            for p in names(space, "none", "partial") if q else names(space, "none", "partial", "dups"):
                 for sd in (0,) if q else (0, 1):
                     if q and kind.endswith("hypertune") and p != "none":
                         continue
+                    if sd == 1 and not (space in ("fin6", "inf") and p == "partial"):
+                        continue
                     D = (9 if q else 12) if fam == "fifo" else (8 if q else 10)
                     out.append(_mk(kind, space, p, seed=sd, W=2, F=1, T=4 if q else 5, D=D, tv=sd % 2,
-                                   max_states=150 if q else 1200))
+                                   max_states=150 if q else 400))
     if not q:
         for kind in ("hb-stop-bo",):
             for space in ("fin6", "fin4"):
-                out.append(_mk(kind, space, "partial", seed=0, W=2, F=1, T=5, D=10, script=1, max_states=1200))
+                out.append(_mk(kind, space, "partial", seed=0, W=2, F=1, T=5, D=10, script=1, max_states=400))
     # rotate the order only (verdicts do not depend on VERIF_SEED)
     k = (seed * 7) % max(1, len(out))
     return out[k:] + out[:k]
